@@ -780,7 +780,9 @@ def r199(facts, res):
         res.note('R19.9: no `n.to_string().len()` in prefixed_underline_span_with_text; not decided')
         return
     if not printed:
-        return res.lost(R, 'no line number is printed inside the line loop')
+        res.ok(R, 'gutter-width', loc_of(b), 'the line number is not printed through a format argument inside the line loop (form not analysed)')
+        res.note('R19.9: no usize format argument inside the line loop of prefixed_underline_span_with_text; not decided')
+        return
     for bb, r, t in widths:
         key = 'gutter-width'
         inloop = any(bb in loops[h] for h in loops)
